@@ -7,7 +7,7 @@ does (``_uncollect_vars``, ``_delete_component``) and compare the two as *pairin
 import ast
 import builtins
 
-from sa.astutil import (norm, guards_of, reaching_value, walk_no_nested, parent, enclosing, stmt_of,
+from sa.astutil import (Guard, norm, guards_of, reaching_value, walk_no_nested, parent, enclosing, stmt_of,
                         preceding_stmts)
 from sa.errors import AnalysisError
 from sa.report import RuleResult
@@ -55,6 +55,15 @@ ASSUMPTIONS = [
 
 # ---------------------------------------------------------------------------
 # small ast helpers
+def _floor(r, n):
+    """exact instance floor, enforced only when the rule reports nothing: a change that makes obligations disappear AND is
+    reported must stay a VIOLATION (exit 1), not become an analysis error"""
+    if r.findings:
+        r.floor = n
+    else:
+        r.require_floor(n)
+
+
 def _dsl_attr(e):
     """e == <Name>._dsl.<attr>  ->  (basename, attr)  else None"""
     if isinstance(e, ast.Attribute) and isinstance(e.value, ast.Attribute) and e.value.attr == '_dsl' \
@@ -377,6 +386,7 @@ class LevelFn:
         self.prunes = []       # (agg, key) deletions of emptied entries
         self.bad_prunes = []   # conditional deletions whose condition is not `the entry is empty`
         self.discarded = []    # (agg, method, stmt): non-mutating set/dict method used as a statement
+        self.cond_removals = []  # (kind, agg, [guards], stmt): removals dominated by a condition that is not their own business
         self._scan()
 
     # -- recognisers ------------------------------------------------------
@@ -446,19 +456,36 @@ class LevelFn:
     # -- scan ---------------------------------------------------------------
     def _guard(self, st):
         cls_guard, conds = None, []
-        for g in _all_guards(st, self.fn):
-            if g.kind in ('loop', 'except'):
+        for g0 in _all_guards(st, self.fn):
+            if g0.kind in ('loop', 'except'):
                 continue
-            it = _isinstance_test(g.test)
-            if it and it[0] == self.M:
-                if g.polarity is not True or len(it[1]) != 1:
-                    raise AnalysisError(f"{self.qual}: effect under a negated / multi-class isinstance guard: {g}")
-                if cls_guard is not None and cls_guard != it[1][0]:
-                    raise AnalysisError(f"{self.qual}: two different class guards on one effect")
-                cls_guard = it[1][0]
-            else:
-                conds.append(g)
+            for t, pol in _flatten_and(g0.test, g0.polarity):
+                g = Guard(t, pol, g0.kind, g0.node)
+                it = _isinstance_test(g.test)
+                if it and it[0] == self.M:
+                    if g.polarity is not True or len(it[1]) != 1:
+                        raise AnalysisError(f"{self.qual}: effect under a negated / multi-class isinstance guard: {g}")
+                    if cls_guard is not None and cls_guard != it[1][0]:
+                        raise AnalysisError(f"{self.qual}: two different class guards on one effect")
+                    cls_guard = it[1][0]
+                else:
+                    conds.append(g)
         return cls_guard, conds
+
+    def _nonempty_field(self, t, polarity, st):
+        """field Y when `t` evaluating to `polarity` means `m._dsl.Y is non-empty`, else None"""
+        if polarity is True:
+            Y = self.src_of(t, st)
+            if Y is not None:
+                return Y
+            if isinstance(t, ast.Call) and norm(t.func) == 'len' and len(t.args) == 1:
+                return self.src_of(t.args[0], st)
+        if isinstance(t, ast.Compare) and len(t.ops) == 1 and isinstance(t.left, ast.Call) and norm(t.left.func) == 'len' \
+                and len(t.left.args) == 1 and isinstance(t.comparators[0], ast.Constant) and t.comparators[0].value == 0:
+            op = t.ops[0]
+            if (isinstance(op, (ast.Gt, ast.NotEq)) and polarity is True) or (isinstance(op, ast.Eq) and polarity is False):
+                return self.src_of(t.left.args[0], st)
+        return None
 
     def _is_empty_test(self, t, polarity, agg, st):
         """does `t` evaluating to `polarity` mean that AGG[k] is empty?  (not A[k] / len(A[k]) == 0 / A[k] == set())"""
@@ -503,9 +530,13 @@ class LevelFn:
                     else:
                         self.bad_prunes.append((agg, key, st, g))
                     return
+                # `if m._dsl.Y: AGG -= m._dsl.Y`  guards a removal by its OWN operand being non-empty: a no-op otherwise
+                own = val[1] if val and val[0] in ('field', 'item') else None
+                if own is not None and self._nonempty_field(t, g.polarity, st) == own:
+                    continue
                 rest.append(g)
             if rest:
-                raise AnalysisError(f"{self.qual}: removal `{norm(st)}` is conditional on {rest}; outside the domain")
+                self.cond_removals.append((kind, agg, rest, st))
         self.effects.append(Eff(kind, agg, key, val, guard, conds, st, norm(st)))
 
     def _scan(self):
@@ -756,6 +787,15 @@ def rule_inverse(repo):
                 why = f"{rems.qual} never removes from {a.agg}"
             r.bad(m, adds.qual, a.text, f"{why}: after replace_component {a.agg} still holds the removed component's "
                   f"entries, so the metadata differs from a fresh build", a.node.lineno)
+        for kind_, agg_, gs_, st_ in (rems.cond_removals if rems else []):
+            cond = ' and '.join(f"{'' if g.polarity else 'not '}{norm(g.test)}" for g in gs_)
+            other = sorted({self_f for g in gs_ for self_f in [rems._nonempty_field(g.test, g.polarity, st_)] if self_f})
+            r.bad(umap[cname][0], rems.qual, f"{agg_}: removal runs only when {cond}",
+                  f"`{norm(st_)}` is dominated by the condition `{cond}`"
+                  + (f" (emptiness of another table, {', '.join(other)})" if other else "")
+                  + f": an inverse step may depend at most on its own operand being non-empty; when the condition is false the "
+                  f"component's entries stay in {agg_} after replace_component although _collect_vars added them unconditionally",
+                  st_.lineno)
         for lf_, which in ((adds, 'add'), (rems, 'remove')):
             for agg_, meth_, st_ in (lf_.discarded if lf_ else []):
                 mm_, _, _ = (cmap if which == 'add' else umap)[cname]
@@ -793,7 +833,7 @@ def rule_inverse(repo):
         else:
             r.ok(m, qual, cons)
     r.evaluations = sum(len(v) for v in add_by_agg.values()) * max(1, sum(len(v) for v in rem_by_agg.values()))
-    r.require_floor(37)
+    _floor(r, 37)
     return r
 
 
@@ -1626,7 +1666,7 @@ def rule_sites(repo):
               f"the two collectors enumerate the hierarchy differently ({', '.join(f'{k}: {ta[k]} vs {tb[k]}' for k in diff)}); "
               f"the sets added by _add_component and removed by _delete_component are computed by "
               f"different collectors and would no longer cover the same objects", 0)
-    r.require_floor(30)
+    _floor(r, 30)
     return r
 
 
@@ -1856,12 +1896,35 @@ def rule_keys(repo):
                               f"replacement (NoWriterError / different nets than a fresh build)", st.lineno)
                 # a surviving neighbour that is saved *by value* (o = o._dsl.<attr>) is re-created as a new object by
                 # the re-add path, so the old object must leave the graph
-                for rb in walk_no_nested(inner):
-                    if isinstance(rb, ast.Assign) and len(rb.targets) == 1 and isinstance(rb.targets[0], ast.Name) \
-                            and rb.targets[0].id == o and _dsl_attr(rb.value) and _dsl_attr(rb.value)[0] == o:
-                        cls = [it[1][0] for gg in guards_of(rb, stop=inner) for it in [_isinstance_test(gg.test)]
+                byval = []
+                for n2 in walk_no_nested(inner):
+                    if isinstance(n2, ast.Assign) and len(n2.targets) == 1 and isinstance(n2.targets[0], ast.Name) \
+                            and n2.targets[0].id == o and _dsl_attr(n2.value) and _dsl_attr(n2.value)[0] == o:
+                        byval.append(n2)
+                    elif isinstance(n2, ast.Expr) and isinstance(n2.value, ast.Call) and isinstance(n2.value.func, ast.Attribute) \
+                            and n2.value.func.attr == 'append' and n2.value.args and isinstance(n2.value.args[0], ast.Tuple) \
+                            and n2.value.args[0].elts and _dsl_attr(n2.value.args[0].elts[0]) \
+                            and _dsl_attr(n2.value.args[0].elts[0])[0] == o:
+                        byval.append(ast.copy_location(ast.Assign(targets=[ast.Name(id=o, ctx=ast.Store())],
+                                                                  value=n2.value.args[0].elts[0]), n2))
+                        byval[-1]._parent = getattr(n2, '_parent', None)
+                        byval[-1]._anchor = n2
+                if not byval and g.endswith('.all_adjacency'):
+                    # a surviving neighbour that is deleted from the graph must have been handed over by value, otherwise
+                    # nothing re-creates it: the connection is dropped
+                    for d in walk_no_nested(inner):
+                        if isinstance(d, ast.Delete) and any(isinstance(t, ast.Subscript) and norm(t.slice) == o and
+                                                             norm(_expand(t.value, d)) == g for t in d.targets):
+                            r.bad(m, DEL_QUAL, f"{g.split('.')[-1]}: surviving neighbour deleted as key but not handed over by value",
+                                  f"`{norm(d)}` deletes the surviving neighbour `{o}` from {g}, yet no saved pair carries its value "
+                                  f"(`{o}._dsl.<attr>`) for the re-add path to re-create it: the outside connection is lost on "
+                                  f"replace_component", d.lineno)
+                for rb in byval:
+                    if True:
+                        pos_ = getattr(rb, '_anchor', rb)
+                        cls = [it[1][0] for gg in guards_of(pos_, stop=inner) for it in [_isinstance_test(gg.test)]
                                if it and it[0] == o and gg.polarity]
-                        gone = [d for d in preceding_stmts(rb)
+                        gone = [d for d in preceding_stmts(pos_)
                                 if any(a is inner for a in _ancestors(d, fn)) and
                                 ((isinstance(d, ast.Delete) and any(isinstance(t, ast.Subscript) and norm(t.slice) == o and
                                                                     norm(_expand(t.value, d)) == g for t in d.targets)) or
@@ -2009,7 +2072,7 @@ def rule_keys(repo):
                           f"`{e.text}` empties the set but the key (an object of the removed component) stays in "
                           f"{e.agg}: get_all_explicit_constraints() shows a `<deleted>` key with an empty set that a "
                           f"fresh build does not have; prune it (`if not {e.agg}[k]: del ...`)", e.node.lineno)
-    r.require_floor(16)
+    _floor(r, 16)
     return r
 
 
@@ -2129,6 +2192,7 @@ def rule_saved(repo):
     selected = {}      # list -> atoms of the set its members are selected by
     hosts_of = {}      # list -> name of the component whose map is filtered
     byname = set()     # lists holding pairs whose FIRST element is a name too
+    graph_saves = {}   # list -> [(build, neighbour generator, neighbour var, removed var)]
     heads = {}         # list -> head identifier needed at eval time
     for L in lists:
         builds = _list_builds(delf, ast.Name(id=L, ctx=ast.Load()))
@@ -2306,6 +2370,46 @@ def rule_saved(repo):
                     continue
                 source[L] = ('graph', 'all_adjacency')
                 r.ok(m, DEL_QUAL, f"{cons} of every removed key, survivors only")
+                graph_saves.setdefault(L, []).append((b, nb[-1], ovar, xvar))
+    # every neighbour whose back edge is purged from the top-level graph is saved, on every path through the loop body
+    for L, sv in sorted(graph_saves.items()):
+        b0, ngen, ovar, xvar = sv[0]
+        loopn = ngen.node
+        if not isinstance(loopn, ast.For):
+            continue
+        gtxt = norm(_expand(ngen.iter.value, loopn))
+        strips = [n for n in walk_no_nested(loopn) if isinstance(n, ast.Call) and isinstance(n.func, ast.Attribute)
+                  and n.func.attr in ('remove', 'discard') and len(n.args) == 1 and norm(n.args[0]) == xvar
+                  and isinstance(n.func.value, ast.Subscript) and norm(n.func.value.slice) == ovar
+                  and norm(_expand(n.func.value.value, stmt_of(n))) == gtxt]
+        ren = {ovar: 'NBR', xvar: 'X'}
+        for sp in strips:
+            stp = _canon_conds([(g.test, g.polarity) for g in guards_of(stmt_of(sp), stop=loopn) if g.kind in ('if', 'exit')], dom, ren)
+            saves = [_canon_conds([(g.test, g.polarity) for g in guards_of(bb['at'], stop=loopn) if g.kind in ('if', 'exit')], dom, ren)
+                     for bb, ng, ov, xv in sv if ng.node is loopn]
+            extras = [sc - stp for sc in saves if stp <= sc]
+            atoms_ = sorted({a[1] for e in extras for a in e if a[0] in (True, False)})
+            covered = bool(extras) and all(a[0] in (True, False) for e in extras for a in e)
+            if covered:
+                # the save sites together must cover every valuation of the extra conditions
+                import itertools
+                for vals in itertools.product((True, False), repeat=len(atoms_)):
+                    env = dict(zip(atoms_, vals))
+                    r.evaluations += 1
+                    if not any(all(env[a[1]] == a[0] for a in e) for e in extras):
+                        covered = False
+                        miss = ' and '.join(f"{'' if v else 'not '}{k}" for k, v in env.items())
+                        break
+            else:
+                miss = 'a condition of another kind'
+            cons = f"{L}: every neighbour purged from {gtxt.split('.')[-1]} is saved on every path"
+            if covered:
+                r.ok(m, DEL_QUAL, cons)
+            else:
+                r.bad(m, DEL_QUAL, f"{L}: a purged neighbour is not saved when {miss}",
+                      f"`{norm(stmt_of(sp))}` removes the back edge of every surviving neighbour, but on the path where {miss} the loop "
+                      f"body ends (continue / branch) before `{L}.append(...)`: that outside connection (e.g. a constant tie-off "
+                      f"`s.unit.gain //= 0x0123` made at the parent) silently disappears on replace_component", sp.lineno)
     # ---- (c) return tuple
     ret_names = [norm(e) for e in rets[0].value.elts]
     orets = [n for n in walk_no_nested(outer) if isinstance(n, ast.Return) and n.value is not None]
@@ -2707,7 +2811,7 @@ def rule_saved(repo):
                       f"(scheduling constraints differ from a fresh build)", ac[0].lineno)
             else:
                 r.ok(m, qual, cons + f" -> {consume[p][1]}")
-    r.require_floor(59)
+    _floor(r, 60)
     return r
 
 
@@ -3077,7 +3181,7 @@ def rule_names(repo):
     _set_parents(probe)
     if [n for n, _ in _unresolved(repo, m, probe.body[0])] != ['Zzz']:
         raise AnalysisError("name-resolution probe failed")
-    r.require_floor(71)
+    _floor(r, 71)
     return r
 
 
@@ -3282,7 +3386,7 @@ def rule_flush(repo):
         r.ok(m, 'Component.check', '_check_valid_dsl_code()', nontrivial=False)
     else:
         r.bad(m, 'Component.check', '_check_valid_dsl_code()', "check() no longer runs the structural checks", cf.lineno)
-    r.require_floor(29)
+    _floor(r, 29)
     return r
 
 
@@ -3416,6 +3520,22 @@ MUTANTS = [
     _m('spawned-signals-from-own-attributes-only', COMP,
        "spawned_signals = obj._collect_all_single( lambda x: isinstance( x, Signal ) ) - added_signals",
        "spawned_signals = set( obj.get_local_object_filter( lambda x: isinstance( x, Signal ) ) ) - added_signals", 'R-C15-sites'),
+    _m('seed-const-tie-off-purged-but-not-saved', COMP, """                del top._dsl.all_adjacency[other]
+                other = other._dsl.const
+""", """                del top._dsl.all_adjacency[other]
+                continue
+""", 'R-C15-saved'),
+    _m('seed-m-constraints-kept-when-no-update-once', L4, """    if isinstance( m, ComponentLevel4 ):
+      s._dsl.all_update_once   -= m._dsl.update_once
+      s._dsl.all_M_constraints -= m._dsl.M_constraints
+""", """    if not isinstance( m, ComponentLevel4 ) or not m._dsl.update_once:
+      return # nothing of this level was collected from m
+    s._dsl.all_update_once   -= m._dsl.update_once
+    s._dsl.all_M_constraints -= m._dsl.M_constraints
+""", 'R-C15-inverse'),
+    _m('l2-metadata-deleted-only-when-component-has-ff-blocks', L2, """      for k in m._dsl.upblks:
+        del s._dsl.all_upblk_reads[k]""", """      for k in ( m._dsl.upblks if m._dsl.update_ff else () ):
+        del s._dsl.all_upblk_reads[k]""", 'R-C15-inverse'),
     # --- pairing of collect / uncollect
     _m('l1-uu-constraints-not-removed', L1, "      s._dsl.all_U_U_constraints -= m._dsl.U_U_constraints", "      pass", 'R-C15-inverse'),
     _m('l4-once-subtracts-wrong-set', L4, "s._dsl.all_update_once   -= m._dsl.update_once",
@@ -4002,6 +4122,18 @@ EQUIV = [
     _m('interfaces-removed-through-public-subtree-accessor', COMP,
        "      removed_interfaces = foo._collect_all_single( lambda x: isinstance( x, Interface ) )",
        "      removed_interfaces = set( foo.get_all_object_filter( lambda x: isinstance( x, Interface ) ) )"),
+    _m('l4-removal-guarded-by-its-own-operand', L4, "      s._dsl.all_update_once   -= m._dsl.update_once",
+       "      if m._dsl.update_once:\n        s._dsl.all_update_once -= m._dsl.update_once"),
+    _m('l1-removal-guarded-by-own-operand-length', L1, "      s._dsl.all_U_U_constraints -= m._dsl.U_U_constraints",
+       "      if len( m._dsl.U_U_constraints ) > 0:\n        s._dsl.all_U_U_constraints -= m._dsl.U_U_constraints"),
+    _m('const-neighbour-saved-in-both-branches', COMP, """                del top._dsl.all_adjacency[other]
+                other = other._dsl.const
+              saved_connections.append( (other, "top"+repr(x)[1:]) ) # other is from outside
+""", """                del top._dsl.all_adjacency[other]
+                saved_connections.append( (other._dsl.const, "top"+repr(x)[1:]) )
+                continue
+              saved_connections.append( (other, "top"+repr(x)[1:]) ) # other is from outside
+"""),
     _m('add-sets-via-update', COMP, "    top._dsl.all_signals       |= added_signals", "    top._dsl.all_signals.update( added_signals )"),
 ]
 
